@@ -44,6 +44,7 @@ LEVEL = {
                    "plus the value-level behaviour of C01/C02, which is not decided statically).",
     "technique": "static analysis: origin dataflow (callable -> awaitify -> await; iterable -> aiter) and return-kind lattice",
 }
+LEVEL["decided"] += " (R03.7) an awaitified callable is called and its result awaited under the same handlers and cleanups (a synchronous callable fails at the call, an asynchronous one at the await); (R03.8) any_iter's flavour table (R19.2, shared); (R03.9) awaitify wraps user callables only, never a plain library function whose result is a user value; the synchronous-iterable wrapper is decided as a table."
 
 # raw calls of user objects that are correct by documented contract (unit -> reason)
 BY_CONTRACT = {
